@@ -74,6 +74,8 @@ pub fn pre_state(which: u8) -> (CaoLangTable, Model) {
         2 => &[(10, 100), (3, 30), (7, 70)],
         // 0,1,2 as an array would have them; then an explicit key beyond the length
         3 => &[(0, 5), (1, 6), (2, 7), (4, 9)],
+        // the last inserted key happens to be len-1 although key `len` is taken
+        5 => &[(2, 20), (1, 10)],
         // one below the growth threshold of the initial 8 buckets
         _ => &[(10, 100), (3, 30), (7, 70), (1, 11), (-5, 55)],
     };
@@ -313,7 +315,26 @@ pub fn set_then_pop<S: Src, const APPEND: bool>(s: &mut S) {
     s.reached("c07.set_then_pop");
 }
 
+/// append on a table whose explicit integer keys were set out of order: the value goes under the
+/// smallest unused integer key not below the length, nothing is overwritten (all values
+/// solver-chosen, full comparison with the model)
+pub fn append_concrete_keys<S: Src, const PRE: u8>(s: &mut S) {
+    let (mut t, mut m) = pre_state(PRE);
+    let v = s.i64();
+    assert!(t.append(Value::Integer(v)).is_ok(), "C07.append_ok");
+    let mut k = m.n as i64;
+    while m.get(k).is_some() {
+        k += 1;
+    }
+    m.set(k, v);
+    observe_all(&t, &m);
+    std::mem::forget(t);
+    s.reached("c07.append_concrete_keys");
+}
+
 crate::harnesses! {
+    c07_append_keys_2_1 / 12 => append_concrete_keys::<_, 5>;
+    c07_append_keys_0_1_2_4 / 12 => append_concrete_keys::<_, 3>;
     c07_set_then_pop / 12 => set_then_pop::<_, false>;
     c07_set_then_pop_then_append / 12 => set_then_pop::<_, true>;
     c07_script_0 / 12 => script::<_, 0>;
